@@ -238,6 +238,9 @@ def run(ctx: Ctx) -> int:
             what = f"firmware prints {bad[1]!r} where Python prints {bad[0]!r}"
             if stable:
                 ctx.fail("types:stable-program-differs", what + " in a program every name of which only ever receives one type", replay)
+            elif diff:
+                # the declarations are not the ones the model of the CURRENT rules predicts: not one of the recorded consequences of those rules
+                ctx.fail("types:declared-types-changed:" + (hz or "unstable").split(":")[0], what + f"; declared types differ from the modelled rules: {diff}", replay)
             else:
                 ctx.fail("types:" + (hz or "unstable").split(":")[0], what, replay)
     functions(ctx)
